@@ -28,6 +28,8 @@ def parseOp (prim : String) (s : String) : Option SOp :=
     | "reset", none => some .reset
     | "destroy", none => some .destroy
     | "start", some a => a.toNat?.bind fun j => if j > 0 ∧ j < 8 then some (.start j) else none
+    -- the member-function overload of Thread::start (Thread.hpp) forwards to start(proc, param): same model step
+    | "mstart", some a => a.toNat?.bind fun j => if j > 0 ∧ j < 8 then some (.start j) else none
     | "join", some a => a.toNat?.bind fun j => if j > 0 ∧ j < 8 then some (.join j) else none
     | _, _ => none
   op.bind fun o => if opValid prim o then some o else none
